@@ -86,9 +86,10 @@ TypedValue consume_numeric_typed_value(
     // ユーザー空間アドレス範囲: 0x0000000100000000 〜 0x00007fffffffffff
     // (macOS/Linux典型的な範囲) カーネル空間アドレス: 0xffff800000000000
     // 以上（負の整数の小さな値を除外）
-    if ((unsigned_val >= 0x0000000100000000ULL &&
-         unsigned_val <= 0x00007fffffffFFFFULL) ||
-        (unsigned_val >= 0xffff800000000000ULL)) {
+    // A small negative integer (-1 is 0xffffffffffffffff) also lies in the
+    // kernel half and must stay an integer: only user-space addresses count.
+    if (unsigned_val >= 0x0000000100000000ULL &&
+        unsigned_val <= 0x00007fffffffFFFFULL) {
         is_pointer_value = true;
     }
 
